@@ -6,6 +6,17 @@ import progs
 VERIF = progs.VERIF
 
 
+import hashlib
+_seen = {}
+
+
+def digest_of(files):
+    h = hashlib.sha256()
+    for f in files:
+        h.update(open(f, 'rb').read())
+    return h.hexdigest()
+
+
 def one_config(label, exe_cmd, tier, violations):
     out = os.path.join(VERIF, 'build', 'c19-' + label)
     shutil.rmtree(out, ignore_errors=True)
@@ -15,13 +26,21 @@ def one_config(label, exe_cmd, tier, violations):
         print(d.stderr[-2000:]); print('MACHINERY-FAILURE: dump failed (%s)' % label); sys.exit(2)
     stats = json.loads(d.stdout.strip().splitlines()[-1])
     files = sorted(glob.glob(os.path.join(out, 'entries_*.json'))) + [os.path.join(out, 'whole.json')]
+    # the serialised documents do not depend on this feature set; when another configuration produced byte-identical
+    # entry documents AND a byte-identical schema, its (already computed, clean) verdict on the entries is this one's too
+    entry_files = files[:-1]
+    key = (digest_of([os.path.join(out, 'schema.json')]), digest_of(entry_files))
+    reuse = _seen.get(key)
+    if reuse is not None and reuse['clean']:
+        files = files[-1:]
     v = subprocess.run(['python3-vt', os.path.join(VERIF, 'gen', 'validate_schema.py'), os.path.join(out, 'schema.json')] + files, stdout=subprocess.PIPE, stderr=subprocess.PIPE, text=True)
     if v.returncode != 0:
         print(v.stderr[-2000:]); print('MACHINERY-FAILURE: validator failed'); sys.exit(2)
     res = json.loads(v.stdout)
     if not all(res['liveness']):
         print('MACHINERY-FAILURE: the validator accepted a known-invalid control document: %s' % res['liveness']); sys.exit(2)
-    entries, docs = 0, 0
+    entries, docs = (reuse['entries'], reuse['docs']) if (reuse is not None and reuse['clean']) else (0, 0)
+    nviol_before = len(violations)
     for f in res['results']:
         entries += f['entries']; docs += f['documents']
         for e in f['errors']:
@@ -34,10 +53,13 @@ def one_config(label, exe_cmd, tier, violations):
                 pass
             violations.append({'key': 'schema-rejects:%s:%s' % (kind, e['validator'] + (':' + defkind if defkind else '')), 'msg': '[features %s] the generated schema rejects a serialised registry: %s at /%s — %s' % (label, e['message'], '/'.join(e['path']), e['instance'][:400]),
                                'case': {'kind': 'document', 'features': label, 'instance': e['instance'], 'path': e['path'], 'message': e['message']}})
+    if reuse is None:
+        _seen[key] = {'clean': len(violations) == nviol_before, 'entries': entries, 'docs': docs}
     schema = json.load(open(os.path.join(out, 'schema.json')))
-    sample = json.load(open(files[0]))['types']
+    sample = json.load(open(entry_files[0]))['types']
     info = {'entries_validated': entries, 'documents': docs, 'distinct_entries': stats['entries'], 'registries_serialised': stats['registries'], 'whole_documents': stats['whole_documents'],
-            'schema_definitions': len(schema.get('definitions', {})), 'liveness_controls_rejected': len(res['liveness'])}
+            'schema_definitions': len(schema.get('definitions', {})), 'liveness_controls_rejected': len(res['liveness']),
+            'entry_verdict_shared_with_identical_schema_and_documents': bool(reuse is not None and reuse['clean'])}
     shutil.rmtree(out, ignore_errors=True)
     return info, [sample[i] for i in (0, 500, 999) if i < len(sample)]
 
